@@ -801,6 +801,8 @@ def report(ctx, schema, population, hist, base, d):
     last = h[i] if 0 <= i < len(h) else ['?']
     if st0 == 'lazyref' and last[0] in ('coll', 'count', 'empty', 'len', 'contains', 'itercoll', 'itercount', 'collload') and 'm2o' in kinds + ['m2o' if any(r['kind'] == 'm2o' for r in schema['rels']) else '']:
         key, what = LAZYREF_KEY, LAZYREF_WHAT
+    elif DEFECT['selflink'] and any(r['kind'] == 'symm' for r in schema['rels']) and any(o[0] == 'add' and o[1] == o[4] and o[2] == o[5] for o in h[:i + 1]):
+        key, what = SELFLINK_KEY, SELFLINK_WHAT      # a minimal history that adds an object to its own symmetric collection
     elif DEFECT['reassign'] and any(o[0] in ('setref', 'navsetref') for o in h[:i + 1]) and any(r['kind'] == 'm2o' for r in schema['rels']) and (st0 == 'lazyref' or any(o[0] == 'navsetref' for o in h)):
         key, what = REASSIGN_KEY, REASSIGN_WHAT
     elif DEFECT['count'] and any(o[0] in ('delete', 'remove', 'add', 'create') for o in h[:i + 1]) and any(r['kind'] in ('m2m', 'symm') for r in schema['rels']):
@@ -810,7 +812,10 @@ def report(ctx, schema, population, hist, base, d):
                   observed={st0: lg[st0][i] if 0 <= i < len(lg[st0]) else None}, expected={'default': lg['default'][i] if 0 <= i < len(lg['default']) else None}, key=key)
 
 
-DEFECT = {'lazyref': False, 'count': False, 'reassign': False}
+DEFECT = {'lazyref': False, 'count': False, 'reassign': False, 'selflink': False}
+SELFLINK_KEY = 'symmetric-self-link:count-double-counted'
+SELFLINK_WHAT = ('adding an object to its OWN symmetric collection counts it twice: SetInstance.add lets reverse_add() put the item into this very collection (count += 1) and then adds '
+                 'len(new_items) again, so count() says 2 for a collection with one item — until the collection is loaded again (prefetch, a new session)')
 REASSIGN_KEY = 'unloaded-reference-reassign:old-owner-collection-stale'
 REASSIGN_WHAT = ('assigning a many-to-one reference whose current value is NOT LOADED (the object is a seed known by its primary key only, or the attribute is lazy) does not load the old '
                  'value (Attribute.__set__ loads it only when the reverse is not a collection), so the previous owner\'s collection is not updated: its cached count() / is_empty() / '
@@ -882,9 +887,28 @@ def witness_reassign(ctx):
                       observed={'reference not loaded': out[False]}, expected={'reference loaded first': out[True]}, key=REASSIGN_KEY)
 
 
+def witness_selflink(ctx):
+    db = Database()
+    class N(db.Entity):
+        friends = Set('N', reverse='friends')
+    db.bind('sqlite', ':memory:'); db.generate_mapping(create_tables=True)
+    with db_session:
+        N()
+    with db_session:
+        n = N[1]; c0 = n.friends.count(); n.friends.add(n)
+        got = [c0, n.friends.count(), len(n.friends)]
+        rollback()
+    db.disconnect()
+    ctx.case(['witness', 'symmetric-self-link'], kind='witness:symmetric-self-link')
+    DEFECT['selflink'] = got != [0, 1, 1]
+    if DEFECT['selflink']:
+        ctx.violation(SELFLINK_WHAT, {'program': "class N: friends = Set('N', reverse='friends'); n = N[1]; n.friends.count(); n.friends.add(n); n.friends.count(); len(n.friends)"},
+                      observed=got, expected=[0, 1, 1], key=SELFLINK_KEY)
+
+
 def run(ctx):
     rng = ctx.rng
-    for wfn in (witnesses, witness_reassign):
+    for wfn in (witnesses, witness_reassign, witness_selflink):
         try: wfn(ctx)
         except Exception as e:
             ctx.violation('a fixed minimal program of the check (%s) raised %s on this tree: %s' % (wfn.__name__, type(e).__name__, str(e)[:160]),
